@@ -40,6 +40,8 @@ def pattern_text(p: dict) -> str:
     k = p["kind"]
     if k == "dir":
         return p["dirs"][0] + "/"
+    if k == "dirpath":
+        return "/".join(p["dirs"]) + "/"
     if k == "ext":
         return "*." + p["ext"]
     if k == "ext2":
@@ -90,7 +92,7 @@ def job(j: dict) -> dict:
 def run(chk) -> None:
     quick = chk.tier == "quick"
     drive.preload()
-    chk.rule = ("cases = (ignore-pattern set of size <= 2 over 12 documented pattern forms, target in {root, "
+    chk.rule = ("cases = (ignore-pattern set of size <= 2 over 13 documented pattern forms, target in {root, "
                 "src, gen}, recursive flag) enumerated exhaustively by TLC over a 174-file universe with every "
                 "always-excluded directory name at depth 1 and 2, compiled artefacts and near-miss names; each "
                 "case x carrier (.thailintignore / yaml ignore; json and pyproject sampled) x explicit naming "
